@@ -28,7 +28,7 @@ SIZES = [0.5, 1.0, 1.5, 2.0, 3.0]
 STEPS = [dict(spacing=s) for s in (0.5, 0.75, 1.0, 1.25, 2.0)] + [dict(spacing=[0.5, 1.0]), dict(spacing=[1.0, 0.5])] + \
     [dict(shape=[a, b]) for a in (2, 3) for b in (2, 3)]
 REGIONS = [None, [0.0, 4.0, 0.0, 3.0], [0.5, 3.5, 0.25, 2.75], [1.0, 3.0, 1.0, 3.0]]
-FRAMES = [[1.0, 0.0], [2.0 ** -7, 0.0], [2.0 ** 10, 0.0], [1.0, 4096.0]]
+FRAMES = [[1.0, 0.0], [2.0 ** -7, 0.0], [2.0 ** 10, 0.0], [1.0, 4096.0], [2.0 ** -30, 0.0], [2.0 ** -8, 2.0 ** 20]]
 
 
 def bounds(tier, seed):
